@@ -13,6 +13,7 @@ nesting depth of hostile inputs without hitting the interpreter's recursion limi
 from __future__ import annotations
 
 import re
+import signal
 import sys
 
 _INT = re.compile(rb"-?[0-9]+\Z")
@@ -228,14 +229,19 @@ class BudgetExceeded(BaseException):
 
 class StepBudget:
     """Deterministic hang protection: counts Python function entries (sys.monitoring PY_START) while active and
-    raises BudgetExceeded in the monitored code when more than `limit` happened."""
+    raises BudgetExceeded in the monitored code when more than `limit` happened.  `cpu_seconds` adds a coarse
+    CPU-time backstop (ITIMER_VIRTUAL) for loops whose iterations get slower without entering functions; a trip of
+    the backstop sets `cpu_tripped` (callers treat it as inconclusive unless the input is a known non-terminating one)."""
 
     TOOL = 4
 
-    def __init__(self, limit: int):
+    def __init__(self, limit: int, cpu_seconds: float = 0.0):
         self.limit = limit
         self.count = 0
         self.tripped = False
+        self.cpu_seconds = cpu_seconds
+        self.cpu_tripped = False
+        self._old = None
 
     def _cb(self, code, offset):
         self.count += 1
@@ -244,16 +250,27 @@ class StepBudget:
             self.tripped = True
             raise BudgetExceeded(self.count)
 
+    def _alarm(self, signum, frame):
+        sys.monitoring.set_events(self.TOOL, 0)
+        self.cpu_tripped = True
+        raise BudgetExceeded(f"cpu>{self.cpu_seconds}s after {self.count} steps")
+
     def __enter__(self):
         m = sys.monitoring
         m.use_tool_id(self.TOOL, "vf-step-budget")
         m.register_callback(self.TOOL, m.events.PY_START, self._cb)
+        if self.cpu_seconds:
+            self._old = signal.signal(signal.SIGVTALRM, self._alarm)
+            signal.setitimer(signal.ITIMER_VIRTUAL, self.cpu_seconds)
         m.set_events(self.TOOL, m.events.PY_START)
         return self
 
     def __exit__(self, *a):
         m = sys.monitoring
         m.set_events(self.TOOL, 0)
+        if self.cpu_seconds:
+            signal.setitimer(signal.ITIMER_VIRTUAL, 0)
+            signal.signal(signal.SIGVTALRM, self._old or signal.SIG_DFL)
         m.register_callback(self.TOOL, m.events.PY_START, None)
         m.free_tool_id(self.TOOL)
         return False
